@@ -199,6 +199,11 @@ func (v *Verifier) contractFor(f *ssa.Function) *FuncContract {
 			if c, ok := v.CS.Funcs["runtime.@"+sn[i:]]; ok {
 				return c
 			}
+			if strings.HasPrefix(sn[i+1:], "on_") {
+				if c, ok := v.CS.Funcs["runtime.@.on_*"]; ok {
+					return c
+				}
+			}
 		}
 	}
 	return nil
